@@ -524,15 +524,21 @@ func (d *driver) runPlan(cls []*class, cases []jCase, makers []jMaker) {
 			}
 			return id
 		}
+		rmat := func(m string) string {
+			if r, ok := cs.Mats[m]; ok {
+				return r
+			}
+			return m
+		}
 		ents := make([]jEntry, len(cs.KS))
 		for i, e := range cs.KS {
 			ents[i] = e
-			ents[i].ID = rid(e.ID)
+			ents[i].ID, ents[i].Mat = rid(e.ID), rmat(e.Mat)
 		}
 		mks := make([]jMaker, len(makers))
 		for i, m := range makers {
 			mks[i] = m
-			mks[i].ID = rid(m.ID)
+			mks[i].ID, mks[i].Mat = rid(m.ID), rmat(m.Mat)
 		}
 		for _, c := range cls {
 			if len(cs.Cls) > 0 {
